@@ -28,19 +28,20 @@ import Pog.Lemmas.SurfaceModule
       every operation is in the group of each of its tags, exactly once, in no other group       (full; F45 repaired)
       each tag client is a property of APIClient (up to order)                                   (full)
       module files   : distinct groups never share a file for ASCII tags (full); ✗ non-ASCII
-      mocks          : ✗ grouped by FIRST tag, RAW string: surfaces and MockAPIClient properties differ
-                       (multi-tag operations; `Users`/`users`; the empty tag)                    (partial)
+      mocks          : grouped like the endpoints (every tag, normalised key, canonical tag), in the order of the keys:
+                       same surfaces; MockAPIClient has the properties of APIClient in the same order (full; F23 repaired —
+                       the mocks emitter grouped by FIRST tag, RAW string: multi-tag operations, `Users`/`users`, the empty tag)
 -/
 /-
   C13 for the three top-level classes (Pog/Model/ClientGen.lean; claimed from Pog/Props/ClientGen.lean):
     surfaces_agree                         from the same tag tuples, APIClient / APIClientProtocol / MockAPIClient have the same property names in
                                            the same order, `C` vs `CProtocol` return types, one `__init__` keyword per property
-    ✗ mock_surface_counterexample (F23)    the mocks emitter passes ITS OWN tuples (first tag only, raw): second tags have no property, order differs
+    mock_surface (F23 repaired)            the mocks emitter passes the visitor's tuples: MockAPIClient has the properties of APIClient, same order
     mock_self_never_a_keyword (F64 repaired)   no keyword of `MockAPIClient.__init__` is `self`; `mock_self_argument_former_witness`: tag `self` → `self_`
     (`clientProps` / `mockClientProps` below list the MODULE names of the tag tuples in property order; the property name is
      `ClientGen.tagAttr` of it, the same function in all three classes - `surfaces_agree`)
 -/
--- INDEX Pog.ClientGenProps: surfaces_agree, mock_surface_counterexample, mock_surface_empty_tag_counterexample, mock_surface_partial, mock_duplicate_argument_counterexample, mock_self_argument_former_witness, mock_self_never_a_keyword
+-- INDEX Pog.ClientGenProps: surfaces_agree, mock_surface, mock_surface_former_witness, mock_surface_empty_tag_former_witness, mock_duplicate_argument_former_witness, mock_init_keywords_distinct_partial, mock_self_argument_former_witness, mock_self_never_a_keyword
 namespace Pog.C13
 open Pog
 
@@ -358,73 +359,60 @@ theorem tag_module_files_distinct_counterexample :
 
 /-! ### Mock grouping -/
 
-/-- ✗ `grouping_agree : surfaces (groupEndpoints u ops) = surfaces (groupMocks u ops)` — false.
-    Witness 1 (defect class `mock-groups-by-first-raw-tag`): an operation with two tags is a method of two tag
-    clients but of one mock class; `AdminOpsClient` has no mock at all. -/
-theorem grouping_agree_counterexample_multi_tag :
+/-- **`grouping_agree`** (F23 repaired; before the repair the mocks emitter grouped by FIRST tag, RAW string, and this was
+    false for multi-tag operations, spelling variants of a tag and the empty tag): the list comprehension of
+    `MocksEmitter._group_operations_by_tag` never raises, and the mock groups are exactly the groups of the endpoints emitter —
+    same key, canonical tag, module, class and operations — taken in the order `sorted(keys)`.  Every operation list. -/
+theorem grouping_agree (u : UInfo) (ops : List TagOp) :
+    groupMocksRaw u ops = some (groupMocks u ops) ∧
+    (groupMocks u ops).Perm (groupEndpoints u ops) ∧
+    (surfaces (groupMocks u ops)).Perm (surfaces (groupEndpoints u ops)) ∧
+    (groupMocks u ops).map (·.key) = sortKeys ((groupEndpoints u ops).map (·.key)) :=
+  ⟨Pog.groupMocksRaw_eq u ops, Pog.groupMocks_perm u ops, (Pog.groupMocks_perm u ops).map _, Pog.groupMocks_keys u ops⟩
+
+/-- Former witness 1 of F23 (defect class `mock-groups-by-first-raw-tag`): an operation with two tags is a method of two tag
+    clients and of two mock classes (before the repair `AdminOpsClient` had no mock at all). -/
+theorem grouping_agree_former_witness_multi_tag :
     surfaces (groupEndpoints UInfo.ascii [⟨"a".toList, ["Users".toList, "admin-ops".toList]⟩]) =
       [("users".toList, "UsersClient".toList, ["a".toList]), ("admin_ops".toList, "AdminOpsClient".toList, ["a".toList])] ∧
     surfaces (groupMocks UInfo.ascii [⟨"a".toList, ["Users".toList, "admin-ops".toList]⟩]) =
-      [("users".toList, "UsersClient".toList, ["a".toList])] := by
+      [("admin_ops".toList, "AdminOpsClient".toList, ["a".toList]), ("users".toList, "UsersClient".toList, ["a".toList])] := by
   decide
 
-/-- Witness 2 (defect class `mock-tag-case-variants-collide`): tags `Users` / `users` give ONE tag client but
-    TWO mock groups with the same file and class (the second overwrites `mock_users.py`), and `MockAPIClient`
-    gets the parameter `users` twice — `mock_client.py` is a `SyntaxError`. -/
-theorem grouping_agree_counterexample_case_variants :
+/-- Former witness 2 (defect class `mock-tag-case-variants-collide`): tags `Users` / `users` give ONE tag client and ONE mock
+    group (before the repair: two mock groups with the same file and class, and `MockAPIClient` got the parameter `users` twice —
+    `mock_client.py` was a `SyntaxError`). -/
+theorem grouping_agree_former_witness_case_variants :
     surfaces (groupEndpoints UInfo.ascii [⟨"a".toList, ["Users".toList]⟩, ⟨"b".toList, ["users".toList]⟩]) =
       [("users".toList, "UsersClient".toList, ["a".toList, "b".toList])] ∧
     surfaces (groupMocks UInfo.ascii [⟨"a".toList, ["Users".toList]⟩, ⟨"b".toList, ["users".toList]⟩]) =
-      [("users".toList, "UsersClient".toList, ["a".toList]), ("users".toList, "UsersClient".toList, ["b".toList])] ∧
-    mockClientProps UInfo.ascii [⟨"a".toList, ["Users".toList]⟩, ⟨"b".toList, ["users".toList]⟩] =
-      ["users".toList, "users".toList] := by
+      [("users".toList, "UsersClient".toList, ["a".toList, "b".toList])] ∧
+    mockClientProps UInfo.ascii [⟨"a".toList, ["Users".toList]⟩, ⟨"b".toList, ["users".toList]⟩] = ["users".toList] := by
   decide
 
-/-- Witness 3: the empty tag `""` is the group `""` (file `.py`, class `UnnamedClassClient`) for the endpoints
-    but `default` for the mocks. -/
-theorem grouping_agree_counterexample_empty_tag :
+/-- Former witness 3: the empty tag `""` is the group `""` (file `.py`, class `UnnamedClassClient`) for the endpoints and for
+    the mocks (before the repair: `default` for the mocks). -/
+theorem grouping_agree_former_witness_empty_tag :
     surfaces (groupEndpoints UInfo.ascii [⟨"a".toList, [[]]⟩]) = [([], "UnnamedClassClient".toList, ["a".toList])] ∧
-    surfaces (groupMocks UInfo.ascii [⟨"a".toList, [[]]⟩]) =
-      [("default".toList, "DefaultClient".toList, ["a".toList])] := by
+    surfaces (groupMocks UInfo.ascii [⟨"a".toList, [[]]⟩]) = [([], "UnnamedClassClient".toList, ["a".toList])] := by
   decide
 
-/-- `grouping_agree` restricted to the inputs the mocks emitter gets right: at most one tag per operation, no two
-    distinct (first) tags sharing a normalised key, no empty tag.  Then both emitters produce the same files,
-    classes and operation lists in the same order. -/
-theorem grouping_agree_partial (u : UInfo) (ops : List TagOp) (h1 : ∀ op ∈ ops, op.tags.length ≤ 1)
-    (h2 : ∀ a ∈ ops, ∀ b ∈ ops, normTagKey u (firstTag a) = normTagKey u (firstTag b) → firstTag a = firstTag b)
-    (h3 : ∀ op ∈ ops, [] ∉ op.tags) :
-    surfaces (groupEndpoints u ops) = surfaces (groupMocks u ops) :=
-  Pog.grouping_agree_of u ops h1 h2 h3
+/-- **`mock_client_props`** (F23 repaired): `MockAPIClient` exposes the tag properties of `APIClient` — the same names in the
+    same order (`for key in sorted(...)` in both) — for every operation list. -/
+theorem mock_client_props (u : UInfo) (ops : List TagOp) : clientProps u ops = some (mockClientProps u ops) :=
+  Pog.clientProps_eq_mock u ops
 
-example :
-    let ops : List TagOp := [⟨"a".toList, ["Users".toList]⟩, ⟨"b".toList, []⟩, ⟨"c".toList, ["Users".toList]⟩,
-      ⟨"d".toList, ["admin-ops".toList]⟩]
-    (∀ op ∈ ops, op.tags.length ≤ 1) ∧
-    (∀ a ∈ ops, ∀ b ∈ ops, normTagKey UInfo.ascii (firstTag a) = normTagKey UInfo.ascii (firstTag b) →
-      firstTag a = firstTag b) ∧ (∀ op ∈ ops, [] ∉ op.tags) := by
-  decide
-
-/-- ✗ `mock_client_props : MockAPIClient` exposes the tag properties of `APIClient` — false
-    (`grouping_agree_counterexample_multi_tag`: `admin_ops` is missing; `…_case_variants`: `users` twice).
-    Partial, same hypotheses: the same property names up to order (`APIClient` sorts by key, the mock does not). -/
-theorem mock_client_props_partial (u : UInfo) (ops : List TagOp) (h1 : ∀ op ∈ ops, op.tags.length ≤ 1)
-    (h2 : ∀ a ∈ ops, ∀ b ∈ ops, normTagKey u (firstTag a) = normTagKey u (firstTag b) → firstTag a = firstTag b)
-    (h3 : ∀ op ∈ ops, [] ∉ op.tags) :
-    ∃ L, clientProps u ops = some L ∧ L.Perm (mockClientProps u ops) := by
-  obtain ⟨L, hL, hp⟩ := Pog.clientProps_perm u ops
-  refine ⟨L, hL, ?_⟩
-  have hs := Pog.grouping_agree_of u ops h1 h2 h3
-  have hm : (groupEndpoints u ops).map (·.module) = (groupMocks u ops).map (·.module) := by
-    have := congrArg (List.map (·.1)) hs
-    simpa [surfaces, List.map_map, Function.comp_def] using this
-  rw [hm] at hp
-  exact hp
-
-theorem mock_client_props_counterexample :
+/-- The former witness: the second tag of an operation has its property on `MockAPIClient`. -/
+theorem mock_client_props_former_witness :
     clientProps UInfo.ascii [⟨"a".toList, ["Users".toList, "admin-ops".toList]⟩] =
       some ["admin_ops".toList, "users".toList] ∧
-    mockClientProps UInfo.ascii [⟨"a".toList, ["Users".toList, "admin-ops".toList]⟩] = ["users".toList] := by
+    mockClientProps UInfo.ascii [⟨"a".toList, ["Users".toList, "admin-ops".toList]⟩] = ["admin_ops".toList, "users".toList] := by
   decide
+
+/-- Hence the mock files are pairwise distinct whenever the endpoint files are (ASCII tags, `tag_module_files_distinct_partial`). -/
+theorem mock_module_files_distinct_partial (u : UInfo) (ops : List TagOp)
+    (hascii : ∀ op ∈ ops, ∀ t ∈ op.tags, t.all isAscii = true) :
+    ((groupMocks u ops).map (·.module)).Nodup :=
+  ((Pog.groupMocks_perm u ops).map (·.module)).nodup_iff.2 (tag_module_files_distinct_partial u ops hascii)
 
 end Pog.C13
